@@ -58,6 +58,8 @@ def run(ctx, res):
     for s_ in sites_:
         LR.rule_refusal_ends_wait(la_, res, s_)
     res.require_min("L-REFUSE-WAKES", 1)
+    res.guard(RR.rule_start_unwind, prog, res)
+    res.require_min("R-START-UNWIND", 9)
     res.guard(RR.rule_source_error_path, prog, res)
     res.guard(RR.rule_thread_exit, prog, res)
     res.guard(RR.rule_start_reset, prog, res)
